@@ -1,29 +1,33 @@
 #!/usr/bin/env python3
-"""Applies each seeded change in /verif/seeded/<id>/patch.diff to /repo, runs the registered quick check of the
-property it breaks, records the VIOLATION lines in meta.json (caught_by), and reverts /repo. Usage: seedrun.py [id ...]"""
-import json, os, subprocess, sys, glob
+"""Applies each seeded change in /verif/seeded/<id>/patch.diff to a scratch copy of /repo's HEAD (never to /repo itself),
+runs the registered quick checks of the property it breaks (meta.json checks_to_run, default: the property) against the
+copy (VERIF_REPO), records the VIOLATION lines in meta.json (caught_by) and removes the copy. Usage: seedrun.py [id ...]"""
+import json, os, subprocess, sys, glob, shutil
 V='/verif'
 man=json.load(open(f'{V}/MANIFEST.json'))
 cmds={c['property_id']:c['quick_cmd'] for c in man['checks']}
 ids=sys.argv[1:] or sorted(os.path.basename(d) for d in glob.glob(f'{V}/seeded/*') if os.path.isdir(d))
-env=dict(os.environ, GOFLAGS='-mod=mod', GOPROXY='off', GOSUMDB='off', GOTOOLCHAIN='local')
-assert subprocess.run(['git','-C','/repo','status','--porcelain','--untracked-files=no'],capture_output=True,text=True).stdout.strip()=='' , "/repo not clean"
+env=dict(os.environ, GOFLAGS='-mod=mod', GOPROXY='off', GOSUMDB='off', GOTOOLCHAIN='local', GOVC_NO_EVIDENCE='1')
 for i in ids:
-    d=f'{V}/seeded/{i}'; meta=json.load(open(f'{d}/meta.json')); prop=meta['breaks_property']
+    d=f'{V}/seeded/{i}'
+    if not os.path.exists(f'{d}/meta.json'): continue
+    meta=json.load(open(f'{d}/meta.json')); prop=meta['breaks_property']
     props=[p for p in meta.get('checks_to_run',[prop]) if p in cmds]
     if not props:
-        print(i, 'no registered check for', prop); continue
-    if subprocess.run(['git','-C','/repo','apply','--check',f'{d}/patch.diff']).returncode!=0:
-        print(i,'PATCH DOES NOT APPLY'); meta['caught_by']=['patch no longer applies to /repo HEAD']; json.dump(meta,open(f'{d}/meta.json','w'),indent=1); continue
-    subprocess.run(['git','-C','/repo','apply',f'{d}/patch.diff'],check=True)
+        print(i, 'no registered check for', prop); meta['caught_by']=[]; json.dump(meta,open(f'{d}/meta.json','w'),indent=1); continue
+    wt=f'/tmp/seedrun_{i}'
+    shutil.rmtree(wt,ignore_errors=True)
+    subprocess.run(f'mkdir -p {wt} && git -C /repo archive HEAD | tar -x -C {wt}',shell=True,check=True)
+    if subprocess.run(['patch','-p1','-s','-d',wt,'-i',f'{d}/patch.diff']).returncode!=0:
+        print(i,'PATCH DOES NOT APPLY'); meta['caught_by']=['patch no longer applies to /repo HEAD']; json.dump(meta,open(f'{d}/meta.json','w'),indent=1); shutil.rmtree(wt,ignore_errors=True); continue
     try:
         meta['caught_by']=[]
-        env["GOVC_NO_EVIDENCE"]="1"
+        e=dict(env, VERIF_REPO=wt)
         for pr in props:
-            r=subprocess.run(cmds[pr],shell=True,cwd=V,capture_output=True,text=True,env=env)
+            r=subprocess.run(cmds[pr],shell=True,cwd=V,capture_output=True,text=True,env=e)
             viol=[l for l in r.stdout.split('\n') if l.startswith('VIOLATION')]
             meta['caught_by'].append({"check":pr,"exit":r.returncode,"violations":[v.split(' obligation=')[1] if ' obligation=' in v else v for v in viol][:12]})
-            print(i, pr, 'exit',r.returncode, len(viol),'violation lines', (viol[0][:160] if viol else ''))
+            print(i, pr, 'exit',r.returncode, len(viol),'violation lines', (viol[0][:200] if viol else ''), flush=True)
     finally:
-        subprocess.run(['git','-C','/repo','checkout','--','.'],check=True)
+        shutil.rmtree(wt,ignore_errors=True)
     json.dump(meta,open(f'{d}/meta.json','w'),indent=1)
